@@ -146,9 +146,11 @@ def rule_sep_fresh(ctx: RuleContext, p: Program, rid: str) -> None:
             if fn.kind == 'overload':
                 continue
             parents = _parents(fn.node)
+            # a parameter that carries the field's separator template (Repeated.from_children(items, separators=..., separators_before=...))
+            sep_params = {a.arg for a in [*fn.node.args.posonlyargs, *fn.node.args.args, *fn.node.args.kwonlyargs] if a.arg in SEP_ATTRS}
             for c in walk_no_nested(fn.node):
                 if not (isinstance(c, ast.Call) and (dotted(c.func) or '') in ('copy.deepcopy', 'deepcopy') and c.args
-                        and any(_is_sep_ref(x, set()) for x in ast.walk(c.args[0]))):
+                        and any(_is_sep_ref(x, sep_params) for x in ast.walk(c.args[0]))):
                     continue
                 n += 1
                 site = f'{m.name.split(".", 1)[1]}:{fn.qualname}'
